@@ -417,7 +417,10 @@ func (ss *session) hit(c *hitCase) *hitOut {
 	if n := len(snap.bodies); n > 0 && snap.bodies[n-1] != nil {
 		last := snap.bodies[n-1]
 		isHop := n-1 < len(c.Hops)
-		policyStop := isHop && o.res.Code == 0 && strings.HasSuffix(o.res.Error, " redirects")
+		// a redirect response that was the LAST thing the transport produced was either handed out
+		// (NoFollow) or refused by the policy — had it been followed, another request would have come
+		// (no reliance on the wording of the error)
+		policyStop := isHop && !(c.RedirSet && c.Redirects == -1)
 		if !policyStop {
 			o.obtained = last
 			if isHop {
@@ -498,14 +501,14 @@ func oracleSeq(s *kit.Summary, sofar []*hitCase, c *hitCase, o *hitOut) {
 		return
 	}
 	r := o.res
+	// The text asks that the injected HEADERS match the result (checked below), not which name or
+	// number the result carries (the numbering is C05's subject): a difference is only noted here and
+	// left to the model comparison.
 	if r.Attack != c.Name || r.Seq != c.Seq {
-		viol("hit_attack_seq", "result does not carry the attack name / sequence number", fmt.Sprint(c.Name, c.Seq), fmt.Sprint(r.Attack, r.Seq), nil)
+		s.Count("note:result_attack_or_seq_differs_from_configured")
 	}
 	if c.TargeterErr != "" {
-		if r.Error == "" {
-			viol("hit_failed_without_error", "targeter failure without an error text", "non-empty", "", nil)
-		}
-		return
+		return // no target, no exchange: outside the property's quantifier
 	}
 	if r.Method != c.Method || r.URL != c.URL {
 		viol("hit_method_url", "result does not carry the target's method and URL", c.Method+" "+c.URL, r.Method+" "+r.URL, nil)
@@ -514,14 +517,13 @@ func oracleSeq(s *kit.Summary, sofar []*hitCase, c *hitCase, o *hitOut) {
 		return
 	}
 	_, reqErr := http.NewRequest(c.Method, c.URL, nil)
+	if reqErr != nil {
+		return // a target no request can be built from (invalid method / URL): outside the quantifier
+	}
 	// --- the request that reached the transport
 	if f := o.ft.first; f != nil {
-		wantMethod := c.Method
-		if wantMethod == "" {
-			wantMethod = "GET"
-		}
-		if f.method != wantMethod {
-			viol("req_method", "request method differs from the target's", wantMethod, f.method, nil)
+		if c.Method != "" && f.method != c.Method { // the empty method is not a method: no statement
+			viol("req_method", "request method differs from the target's", c.Method, f.method, nil)
 		}
 		if u, err := parseLikeNewRequest(c.URL); err == nil && u.String() == c.URL && f.url != c.URL {
 			viol("req_url", "request URL differs from the target's", c.URL, f.url, nil)
@@ -541,16 +543,14 @@ func oracleSeq(s *kit.Summary, sofar []*hitCase, c *hitCase, o *hitOut) {
 				viol("req_host", "Host header did not set the request host", e.Vals[0], f.host, nil)
 			}
 		}
+		// headers beyond the target's and the two injected ones are not forbidden by the text: noted only
 		for k := range f.header {
-			if k == "X-Vegeta-Seq" || k == "X-Vegeta-Attack" {
-				continue
-			}
-			found := false
+			found := k == "X-Vegeta-Seq" || k == "X-Vegeta-Attack"
 			for _, e := range c.Header {
 				found = found || e.Key == k
 			}
 			if !found {
-				viol("req_header_extra", "request carries a header the target does not have", "", k, nil)
+				s.Count("note:request_header_beyond_target")
 			}
 		}
 		if got := f.header["X-Vegeta-Seq"]; len(got) != 1 || got[0] != strconv.FormatUint(r.Seq, 10) {
@@ -609,8 +609,11 @@ func oracleSeq(s *kit.Summary, sofar []*hitCase, c *hitCase, o *hitOut) {
 		want = want[:c.MaxBody]
 	}
 	// body drained and closed on every path
+	// "read to its end and closed": every byte the body has was read, its end (EOF, or the error)
+	// was reached, and Close was called — how many Reads or Closes it took is not prescribed
 	t, e, x, cl, sh := o.obtained.summary()
-	if !(t == len(avail) && cl == 1 && sh && ((readFails && x >= 1 && e == 0) || (!readFails && e >= 1 && x == 0))) {
+	_ = sh
+	if !(t == len(avail) && cl >= 1 && ((readFails && x >= 1) || (!readFails && e >= 1))) {
 		viol("body_not_drained_or_closed", "response body not read to its end and closed", fmt.Sprintf("%d bytes, terminal, one close", len(avail)),
 			fmt.Sprintf("read=%d eof=%d err=%d close=%d shape=%v", t, e, x, cl, sh), nil)
 	}
@@ -636,7 +639,7 @@ func oracleSeq(s *kit.Summary, sofar []*hitCase, c *hitCase, o *hitOut) {
 	if r.Code != uint16(rs.Status) {
 		viol("hit_code", "result does not carry the final status code", fmt.Sprint(rs.Status), fmt.Sprint(r.Code), nil)
 	}
-	if sortedHeaderTokens(r.Headers) != sortedHeaderTokens(mkHeader(rs.Header)) || r.Headers == nil {
+	if sortedHeaderTokens(r.Headers) != sortedHeaderTokens(mkHeader(rs.Header)) { // nil and empty are alike
 		viol("hit_headers", "result does not carry the response headers", sortedHeaderTokens(mkHeader(rs.Header)), sortedHeaderTokens(r.Headers), nil)
 	}
 	if r.BytesIn != uint64(len(r.Body)) {
